@@ -147,6 +147,17 @@ impl SemanticState {
                 })
             })
             .collect::<anyhow::Result<Vec<_>>>()?;
+        for (index, extern_value) in extern_values.iter().enumerate() {
+            if extern_values[..index]
+                .iter()
+                .any(|other| other.name == extern_value.name)
+            {
+                anyhow::bail!(
+                    "duplicate definition of extern value `{}` in module `{path}`",
+                    extern_value.name
+                );
+            }
+        }
 
         self.modules.insert(
             path.clone(),
